@@ -196,17 +196,41 @@ func cmdCheck(args []string) int {
 	if len(specs.errs) > 0 {
 		return failClosed(*verif, *prop, *tier, seed, "contracts", strings.Join(specs.errs, "\n"), t0)
 	}
+	if os.Getenv("GOVC_FORKS") != "" {
+		forkStats = map[string]int{}
+		defer func() {
+			type kv struct {
+				k string
+				v int
+			}
+			var l []kv
+			for k, v := range forkStats {
+				l = append(l, kv{k, v})
+			}
+			sort.Slice(l, func(i, j int) bool { return l[i].v > l[j].v })
+			for i, e := range l {
+				if i < 25 {
+					fmt.Fprintf(os.Stderr, "fork %6d %s\n", e.v, e.k)
+				}
+			}
+		}()
+	}
 	ex := NewExec(prog, specs)
 	ex.setupGlobals(pkgs)
 	axioms := map[string][]*Term{}
 	var fnsUnder []string
 	var unsup []string
 	returnsOf := map[string]int{}
+	var skippedThorough []string
 	for _, sp := range specs.list {
 		if !sp.props()[*prop] {
 			continue
 		}
 		if *only != "" && !strings.Contains(sp.Target, *only) {
+			continue
+		}
+		if sp.Thorough && *tier != "thorough" {
+			skippedThorough = append(skippedThorough, fnName(sp.Fn))
 			continue
 		}
 		ex.axioms = nil
@@ -232,6 +256,12 @@ func cmdCheck(args []string) int {
 	}
 	defAxiomsGlobal = ex.defAxioms
 	groups := groupObligations(ex.obls, axioms)
+	if forkStats != nil {
+		return 3
+	}
+	if *verbose {
+		fmt.Fprintf(os.Stderr, "vcgen done: %d obligations in %d groups, %d terms, %.1fs\n", len(ex.obls), len(groups), len(termList), time.Since(t0).Seconds())
+	}
 	work := filepath.Join(*verif, ".work", *prop)
 	os.RemoveAll(work)
 	results := discharge(groups, work, timeout, *tier == "thorough", 16)
@@ -343,21 +373,21 @@ func cmdCheck(args []string) int {
 	ev := Evidence{PropertyID: *prop, Tier: *tier, Seed: seed, Level: "proof", WallS: round3(time.Since(t0).Seconds()), Violations: violations,
 		Assumptions: append(assumptions, "machine integers are exact fixed-width bit-vectors (nothing treated as mathematical)"),
 		Coverage: map[string]interface{}{
-			"obligations":              total,
-			"discharged":               discharged,
-			"discharged_by_simplifier": trivial,
-			"checker_cmd":              fmt.Sprintf("./check %s --tier %s", *prop, *tier),
-			"trusted_base":             trustedBase,
-			"functions_under_contract": fnsUnder,
-			"per_backend":              perBackend,
-			"solver_s":                 round3(solverS),
-			"cover_queries":            map[string]int{"total": covers, "satisfiable": coversOK},
-			"bounded":                  bounded,
-			"unverified_functions":     unsup,
-			"known_findings":           knownHit,
+			"obligations":                total,
+			"discharged":                 discharged,
+			"discharged_by_simplifier":   trivial,
+			"checker_cmd":                fmt.Sprintf("./check %s --tier %s", *prop, *tier),
+			"trusted_base":               trustedBase,
+			"functions_under_contract":   fnsUnder,
+			"per_backend":                perBackend,
+			"solver_s":                   round3(solverS),
+			"cover_queries":              map[string]int{"total": covers, "satisfiable": coversOK},
+			"bounded":                    bounded,
+			"unverified_functions":       unsup,
+			"known_findings":             knownHit,
 			"confirmed_by_second_solver": confirmed,
-			"samples":                  samples,
-			"paths_per_function":       returnsOf,
+			"samples":                    samples,
+			"paths_per_function":         returnsOf,
 		}}
 	if !*noEvidence {
 		os.MkdirAll(filepath.Join(*verif, "evidence"), 0o755)
